@@ -263,7 +263,8 @@ static WPlan plan_write(int kind, int seq, size_t maxmsg)
     WPlan p;
     switch(kind) {
     case W_SMALL: p.bytes = msg_int("/a", 1000 + seq); break;
-    case W_MEDIUM: p.bytes = msg_str("/bcde", std::string("abcdef") + (char)('0' + seq)); break;
+    case W_MEDIUM:      // a string argument of 7 characters: 20 bytes, or 16 bytes where MaxMsg is below 20 (so that small rings see a string across their end)
+        p.bytes = msg_str(maxmsg < 20 ? "/m" : "/bcde", std::string("abcdef") + (char)('0' + seq)); break;
     case W_BIG: p.bytes = msg_sized(maxmsg, (char)('0' + seq)); break;
     case W_OVER: p.bytes = msg_sized(maxmsg + 4, (char)('0' + seq)); break;
     case W_ARRAY: p.bytes = msg_int("/w", 2000 + seq); break;
@@ -292,8 +293,12 @@ static void do_write(rtosc::ThreadLink &tl, int kind, int seq, size_t maxmsg, co
     // no heap allocation in here: this runs on a fiber stack that may be abandoned
     char s[300];
     switch(kind) {
-    case W_SMALL: tl.write("/a", "i", 1000 + seq); break;
-    case W_MEDIUM: memcpy(s, "abcdef", 6); s[6] = (char)('0' + seq); s[7] = 0; tl.write("/bcde", "s", s); break;
+    case W_SMALL:
+        // later positions: the message is built in the link's own buffer() and handed to raw_write() from there (what buffer() is for)
+        if(seq >= 1) { rtosc_message(tl.buffer(), tl.buffer_size(), "/a", "i", 1000 + seq); tl.raw_write(tl.buffer()); }
+        else tl.write("/a", "i", 1000 + seq);
+        break;
+    case W_MEDIUM: memcpy(s, "abcdef", 6); s[6] = (char)('0' + seq); s[7] = 0; tl.write(maxmsg < 20 ? "/m" : "/bcde", "s", s); break;
     case W_BIG: case W_OVER: {
         // same string as msg_sized() produces
         size_t total = kind == W_BIG ? maxmsg : maxmsg + 4;
@@ -676,7 +681,7 @@ int main(int argc, char **argv)
     // a ring whose size (54) is not a multiple of 4: start offsets of both parities near the wrap-around, programs over the kinds
     // that fit an 18-byte MaxMsg (12-byte messages, the 16-byte blob message whose size word can straddle the ring end)
     if(!EXT) for(size_t off = 30; off < 54; off += 2) for(int pre = 0; pre <= 1; ++pre)
-        for(auto &wp : wprogs) { bool ok = true; for(int k : wp) if(!(k == W_SMALL || k == W_BLOB || k == W_RAW || k == W_OVER)) ok = false; if(!ok) continue;
+        for(auto &wp : wprogs) { bool ok = true; for(int k : wp) if(!(k == W_SMALL || k == W_MEDIUM || k == W_BLOB || k == W_RAW || k == W_OVER)) ok = false; if(!ok) continue;
             for(auto &rp : rprogs) { Instance in; in.maxmsg = 18; in.nmsgs = 3; in.offset = off; in.prefill = pre; in.wprog = wp; in.rprog = rp; insts.push_back(in); } }
     for(auto &rg : rings) for(size_t off = 0; off < rg.maxmsg * rg.nmsgs; off += 4) for(int pre = 0; pre <= 2; ++pre) {
         // quick: every start offset for the smallest ring, offsets near the wrap-around for the others
